@@ -1131,6 +1131,32 @@ theorem readData_rule (A : DArr) (ix : IndexArg) :
   | error e =>
     rcases selectArgs_err _ _ _ _ _ _ hs with rfl | rfl <;> simp
 
+/-! ### every way of reading the whole array is the same read -/
+
+theorem selectIndex_ellipsis_only (sh : List Nat) : selectIndex sh (.one .ellipsis) = .ok (sh.map fullSel) := by
+  simp [selectIndex, IndexArg.items, selectArgs]
+
+theorem selectIndex_fullSlice (n : Nat) (ns : List Nat) :
+    selectIndex (n :: ns) fullSlice = .ok ((n :: ns).map fullSel) := by
+  simp [selectIndex, fullSlice, IndexArg.items, selectArgs, selectAxis_full, fullSel]
+
+theorem readData_whole (A : DArr) (hr : A.arr.shape ≠ []) :
+    readData A fullSlice = readData A .none ∧ readData A (.one .ellipsis) = readData A .none ∧
+    readData A (.tuple []) = readData A .none := by
+  refine ⟨rfl, ?_, ?_⟩
+  · rw [readData_rule, readData_rule]
+    cases hA : A.arr.shape with
+    | nil => exact absurd hA hr
+    | cons n ns =>
+      simp only [selectIndex_ellipsis_only, selectIndex_fullSlice]
+  · rw [readData_rule, readData_rule]
+    cases hA : A.arr.shape with
+    | nil => exact absurd hA hr
+    | cons n ns =>
+      have : selectIndex (n :: ns) (.tuple []) = .ok ((n :: ns).map fullSel) := by
+        simp [selectIndex, IndexArg.items, selectArgs]
+      simp only [this, selectIndex_fullSlice]
+
 /-! ### shrink, then grow: the elements that were cut off come back as fill values -/
 
 theorem shrink_grow (A B C : DArr) (e1 e2 : List Int) (h1 : setExtent A e1 = .ok B) (h2 : setExtent B e2 = .ok C) :
